@@ -80,3 +80,43 @@ Definition run_c02 (x : sx) : sx :=
   | SL (SY "classify" :: _) => SY "none"
   | _ => SY "bad-input"
   end.
+
+(* ---------- C04: writer and round trip ---------- *)
+From PV Require Import Spec.CifRoundTrip Model.CifWrite.
+Definition fl_of_sx (x : sx) : list fval := map fval_of_sx (get_list x).
+Definition file_of_sx (x : sx) : option pdbfile :=
+  match x with
+  | SL (id :: _ :: cell :: sym :: scale :: origx :: SL mtrix :: p :: _) =>
+      Some {| pf_id := get_opt Sx.get_text id; pf_remarks := []; pf_scale := get_opt fl_of_sx scale; pf_origx := get_opt fl_of_sx origx;
+              pf_mtrix := flat_map (fun m => match m with SL [SZ i; d; g] => [(i, fl_of_sx d, get_bool g)] | _ => [] end) mtrix;
+              pf_cell := get_opt fl_of_sx cell; pf_sym := get_opt (fun s => Z.to_nat (get_Z s)) sym;
+              pf_models := pdb_of_sx p; pf_dbrefs := []; pf_bonds := [] |}
+  | _ => None
+  end.
+Definition osym_eq (a b : option nat) : bool := match a, b with None, None => true | Some x, Some y => Nat.eqb x y | _, _ => false end.
+(* the first clause of the round-trip statement that fails, or ok *)
+Definition roundtrip_verdict (f f' : pdbfile) : sx :=
+  if negb (otext_eq (pf_id f) (pf_id f')) then SY "identifier-differs"
+  else if negb (ofl_eq (pf_cell f) (pf_cell f')) then SY "cell-differs"
+  else if negb (osym_eq (pf_sym f) (pf_sym f')) then SY "symmetry-differs"
+  else if negb (ofl_eq (pf_scale f) (pf_scale f')) then SY "scale-differs"
+  else if negb (ofl_eq (pf_origx f) (pf_origx f')) then SY "origx-differs"
+  else if negb (all2 (fun a b : Z * list fval * bool => let '(i, m, g) := a in let '(j, n, h) := b in
+                        (Z.eqb i j && all2 feq m n && Bool.eqb g h)%bool) (pf_mtrix f) (pf_mtrix f')) then SY "ncs-differs"
+  else if negb (pdb_rt (pf_models f) (pf_models f')) then SY "structure-differs"
+  else SY "ok".
+
+Definition run_c04 (x : sx) : sx :=
+  match x with
+  | SL [SY "read"; SZ opts; SZ level; SS input] => sx_read_cif opts level input
+  | SL [SY "write"; f] => match file_of_sx f with Some f => SS (save_mmcif f) | None => SY "bad-file" end
+  | SL [SY "roundtrip"; f; f'] =>
+      match file_of_sx f, file_of_sx f' with
+      | Some a, Some b => roundtrip_verdict a b
+      | _, _ => SY "bad-file"
+      end
+  | SL (SY "reread" :: _) => SY "accepted"
+  | SL (SY "rewrite" :: _) => SY "same"
+  | SL (SY "classify" :: _) => SY "none"
+  | _ => SY "bad-input"
+  end.
